@@ -28,6 +28,7 @@ mod c14;
 mod c15;
 mod c16;
 mod c17;
+mod c17_io;
 mod c18;
 mod xinf;
 
